@@ -976,8 +976,15 @@ func tableName(m *Val) string {
 		}
 		if base.Op == "global" {
 			if g, ok := base.Aux.(*ssa.Global); ok {
-				if sv, isStruct := g.Type().(*types.Pointer).Elem().Underlying().(*types.Struct); isStruct && sv.NumFields() == 1 {
+				et := g.Type().(*types.Pointer).Elem()
+				if sv, isStruct := et.Underlying().(*types.Struct); isStruct && sv.NumFields() == 1 {
 					return base.Name
+				}
+				// the variable holds a pointer to the record
+				if pt, isP := et.Underlying().(*types.Pointer); isP {
+					if sv, isStruct := pt.Elem().Underlying().(*types.Struct); isStruct && sv.NumFields() == 1 {
+						return base.Name
+					}
 				}
 			}
 		}
